@@ -27,6 +27,7 @@
 
 import inspect
 import math
+import re
 import typing
 import ttconv.imsc.namespaces as xml_ns
 import ttconv.utils
@@ -998,7 +999,8 @@ class StyleProperties:
 
       shadows = []
 
-      for shadow in xml_attrib.split(","):
+      # commas within rgb(...) and rgba(...) do not separate shadows
+      for shadow in re.split(r",(?![^(]*\))", xml_attrib):
 
         cs = shadow.split()
 
